@@ -39,7 +39,8 @@ MANIFEST = {
             "nesting and width; any leaf values; any wrapper behaviour whose result contains no wrapper): a wrapper-free tree is "
             "unchanged; the result of unwrap contains no wrapper; unwrap is idempotent; the .unwrap() calls made are exactly the "
             "wrapper nodes of the tree, each once, children before parents; a method that unwraps first gives the same result on a "
-            "pre-unwrapped object; combine(partition(t)) = t; every leaf below a NonTrainable and every non-inexact leaf is in the "
+            "pre-unwrapped object; a BijectionReparam / Lambda constructed under eqx.filter_vmap unwraps to the stack of its unwrapped "
+            "slices (any number of levels); combine(partition(t)) = t; every leaf below a NonTrainable and every non-inexact leaf is in the "
             "static half; for ANY sequence of structure-preserving updates of the params half, of ANY length, the trained model "
             "re-partitions into the optimiser's output and the ORIGINAL static half (so frozen and non-float leaves are found "
             "unchanged at their positions); non_trainable freezes everything and does not change unwrap; the ravel constructor "
@@ -1112,6 +1113,46 @@ def unit_frozen_submodule(ctx):
                           reproducer="cd /verif && ./check C12 --replay <this file>")
 
 
+def vmapped_where_mixed_rank_case():
+    """Where constructed under eqx.filter_vmap from operands of different rank: unwrap vs the stack of the individually
+    constructed ones.  -> error string or None."""
+    s = _setup()
+    jnp, eqx, w = s["jnp"], s["eqx"], s["wrappers"]
+
+    def mk(c, a):
+        return w.Where(c, a, 0.0)
+
+    c = jnp.array([[True, False, True], [False, False, True]])
+    a = jnp.arange(1.0, 13.0).reshape(2, 2, 3)
+    try:
+        u = w.unwrap(eqx.filter_vmap(mk)(c, a))
+    except Exception as e:
+        return f"raises {type(e).__name__}: {str(e)[:100]}"
+    ind = jnp.stack([w.unwrap(mk(c[i], a[i])) for i in range(2)])
+    if u.shape != ind.shape or not bool(jnp.array_equal(u, ind)):
+        return (f"unwrap(filter_vmap(Where)(cond[2,3], value[2,2,3])) = {np.asarray(u).tolist()} differs from the stack of the "
+                f"individually constructed ones {np.asarray(ind).tolist()}")
+    return None
+
+
+def unit_vmapped_where(ctx):
+    """Candidate finding reported to the coordinator: a VIOLATION only when known_findings.json lists it for C12 (status known ->
+    KNOWN-FINDING, status fixed -> regression alarm); otherwise an evidence note."""
+    import re
+
+    u = ctx.unit("vmapped-where-mixed-rank", "Where (no _dummy) constructed under filter_vmap with operands of different rank: unwrap vs stack of individual")
+    u.count("where-mixed-rank", nontrivial=True, tag="Where")
+    err = vmapped_where_mixed_rank_case()
+    if err:
+        sig = "vmapped-where:mixed-rank"
+        if any(k.get("property") == "C12" and re.fullmatch(k["match"], sig) for k in ctx.known):
+            ctx.violation(sig=sig, what=err, case={"kind": "vmapped-where"}, found_input=True, unit=u.name, expected="= stack of individually constructed",
+                          observed=err, broken="unwrap(vmapped) = stack of unwrap(individual) on the real code (oracle)",
+                          reproducer="cd /verif && ./check C12 --replay <this file>")
+        else:
+            ctx.notes.append("DEFECT CANDIDATE (latent; not listed in known_findings.json, so reported as a note only): " + err[:400])
+
+
 def note_lambda_returning_wrapper(ctx):
     """Replay of C12_idempotent_without_clean_refuted on the real code (a boundary of the claim, not a violation)."""
     s = _setup()
@@ -1164,6 +1205,7 @@ def run(ctx):
     _guard(ctx, "conditioner", unit_conditioner, 8 if q else 80)
     _guard(ctx, "training-oracle", unit_training, 12 if q else 130)
     _guard(ctx, "frozen-submodule", unit_frozen_submodule)
+    _guard(ctx, "vmapped-where-mixed-rank", unit_vmapped_where)
     note_lambda_returning_wrapper(ctx)
     ctx.assumptions += [
         "optimisers are functions of the params half that preserve its structure (optax updates + eqx.apply_updates)",
@@ -1197,6 +1239,10 @@ def replay(ctx, rep):
     if k == "training":
         err, info = run_training_case(c)
         print("oracle", err, {kk: v for kk, v in info.items() if kk in ("frozen", "moved")})
+        return err is None
+    if k == "vmapped-where":
+        err = vmapped_where_mixed_rank_case()
+        print("oracle", err)
         return err is None
     if k == "frozen-submodule":
         err = frozen_submodule_case(c["mode"])
